@@ -15,7 +15,7 @@ STUBS = ["pandapower.run._powerflow -> no-op (the prologue, locals(), _passed_ru
 ASSUMPTIONS = ["numeric parameters (tolerance_mva, max_iteration, delta_q, switch_rx_ratio) are symbolic reals in (0, 100]; "
                "string/bool parameters are chosen by a symbolic selector whose branches the solver enumerates",
                "the value that counts is net._options[<option key>] at the point where _powerflow is entered"]
-OUTSIDE = ["init / init_vm_pu / init_va_degree (mapped to two derived options)", "recycle, tdpf*, run_control, lightsim2grid",
+OUTSIDE = ["init_vm_pu / init_va_degree passed directly (init itself: instance init_translation)", "recycle, tdpf*, run_control, lightsim2grid",
            "rundcpp/runopp (the property names runpp; runpp_3ph shares the helper _passed_runpp_parameters and is included for 8 parameters)"]
 BOUNDS = {"quick": "one parameter at a time (15 parameters) + 3 two-parameter combinations + 2-call history",
           "thorough": "same + all unordered pairs of the 15 parameters"}
@@ -129,6 +129,30 @@ def make_fn(params, history=False):
         _same(ctx, f"stored_applies_when_not_passed/{bystander}", opts[_okey(bystander)], stored_b)
     return fn
 
+def make_init():
+    """`init` has no option key of its own: it is translated into init_vm_pu / init_va_degree / init_results. A stored init must not change
+    what an explicitly passed init is translated to: the options after runpp(net, init=passed) on a net with a stored init equal those on a
+    net without one (explicit values other than the signature default "auto"; the default-equal case is the known finding of this property)"""
+    def fn(ctx):
+        prun = ctx.load("pandapower.run")
+        kinds = ["dc", "flat", "results"]
+        stored = _select(ctx, "stored_init", kinds + ["auto"])
+        passed = _select(ctx, "passed_init", kinds)
+        stored_b = _select(ctx, "stored_trafo_model", DISC["trafo_model"][1])
+        a, b = _net(), _net()
+        a.user_pf_options = {"init": stored, "trafo_model": stored_b}
+        b.user_pf_options = {"trafo_model": stored_b}
+        with patched(prun, _powerflow=lambda net, **kw: None):
+            prun.runpp(a, init=passed)
+            prun.runpp(b, init=passed)
+        for k in ("init_vm_pu", "init_va_degree", "init_results"):
+            ctx.true(f"passed_wins/init/{k}", k in a._options and k in b._options and type(a._options[k]) == type(b._options[k])
+                     and a._options[k] == b._options[k])
+        if passed in ("dc", "flat"):      # documented: "dc" starts from flat magnitudes and DC angles, "flat" from flat both
+            ctx.true("passed_wins/init/documented_translation", a._options["init_vm_pu"] == "flat" and a._options["init_va_degree"] == passed)
+        _same(ctx, "stored_applies_when_not_passed/trafo_model", a._options["trafo_model"], stored_b)
+    return fn
+
 
 class _Stop3(Exception):
     pass
@@ -189,6 +213,7 @@ def instances(tier):
                         raises=(NotImplementedError, ValueError)))
     for p3 in list(P3_NUM) + list(P3_DISC):
         out.append(Inst(f"runpp_3ph_one_{p3}", make_3ph(p3), nvars=8, meta=dict(entry="runpp_3ph", parameters=[p3]), samples=2))
+    out.append(Inst("init_translation", make_init(), nvars=8, meta=dict(parameters=["init"], derived=["init_vm_pu", "init_va_degree", "init_results"]), samples=3))
     out.append(Inst("history_tolerance_mva", make_fn(["tolerance_mva"], history=True), nvars=10, meta=dict(parameters=["tolerance_mva"], calls=2), samples=1))
     out.append(Inst("history_algorithm", make_fn(["algorithm"], history=True), nvars=10, meta=dict(parameters=["algorithm"], calls=2), samples=1))
     return out
